@@ -57,6 +57,7 @@ typedef struct proc {
     int endkind; void *exitv; double end_time; uint64_t end_seq;
     int ended_in_op;             /* the call it was suspended in when it ended (OP_NONE: it was running) */
     double late_resume_t; uint64_t late_resume_n;       /* resumes the harness sent to it after a stop in its yield, at time late_resume_t */
+    int64_t late_sig[4];                                 /* their signal values (the first four) */
     /* in-flight call */
     int op; double call_t; uint64_t callseq; int obj; int64_t arg; int call_step;
     double hold_due;
